@@ -658,6 +658,10 @@ val state_eqb : state0 -> state0 -> bool
 val coef_mono :
   'a1 -> 'a1 -> ('a1 -> 'a1) -> monomial -> state0 -> state0 -> 'a1
 
+val coef_poly :
+  'a1 -> 'a1 -> ('a1 -> 'a1 -> 'a1) -> ('a1 -> 'a1 -> 'a1) -> ('a1 -> 'a1) ->
+  'a1 poly -> state0 -> state0 -> 'a1
+
 val ksum : 'a1 -> ('a1 -> 'a1 -> 'a1) -> 'a2 list -> ('a2 -> 'a1) -> 'a1
 
 type 'k mat = state0 -> state0 -> 'k
@@ -837,6 +841,10 @@ val model_poly :
   -> bool) -> 'a1 vops -> (int -> int -> int -> int) -> config -> bool ->
   (int, 'a1) op list -> 'a1 poly outcome
 
+val poly_table :
+  'a1 -> 'a1 -> ('a1 -> 'a1 -> 'a1) -> ('a1 -> 'a1 -> 'a1) -> ('a1 -> 'a1) ->
+  int -> 'a1 poly -> 'a1 list list
+
 val model_results :
   'a1 vops -> config -> (int, 'a1) op list -> (int, 'a1) obs outcome list
 
@@ -868,6 +876,10 @@ val q_splus_table :
 
 val q_sminus_table :
   (((int * int) * int) * int) list -> int -> config -> qop list -> q list list
+
+val q_poly_table : int -> q poly -> q list list
+
+val c_poly_table : int -> qC poly -> qC list list
 
 type cop = (int, qC) op
 
